@@ -188,4 +188,55 @@ theorem checkInference_iff (doms : List (List Int)) (c : Cons) (prem : List Atom
       · left; right; simpa using hp
     · left; left; simpa using hc
 
+/-- The same check given *definitions*: constraints of the model of the form `r ↔ p` which define a
+0-1 variable `r` as the truth value of an atomic predicate `p` (`Solver::new_literal_for_predicate`).
+The solver writes `p` wherever `r` is meant, so an inference about `r` is judged with the
+definitions at hand: `defs ∧ c ∧ premises → conclusion`. -/
+def checkInferenceD (doms : List (List Int)) (defs : List Cons) (c : Cons) (prem : List Atom)
+    (concl : Option Atom) : Bool :=
+  (product doms).all (fun a =>
+    !(defs.all (·.sat a)) ||
+    (!(c.sat a && prem.all (·.holds a)) ||
+      (match concl with
+       | some q => q.holds a
+       | none => false)))
+
+theorem checkInferenceD_nil (doms : List (List Int)) (c : Cons) (prem : List Atom) (concl : Option Atom) :
+    checkInferenceD doms [] c prem concl = checkInference doms c prem concl := by
+  simp [checkInferenceD, checkInference]
+
+theorem checkInferenceD_iff (doms : List (List Int)) (defs : List Cons) (c : Cons) (prem : List Atom)
+    (concl : Option Atom) :
+    checkInferenceD doms defs c prem concl = true ↔
+      ∀ a, inDoms doms a = true → (∀ d ∈ defs, d.sat a = true) → c.sat a = true →
+        (∀ p ∈ prem, p.holds a = true) →
+        (match concl with | some q => q.holds a = true | none => False) := by
+  simp only [checkInferenceD, List.all_eq_true, mem_product, Bool.or_eq_true, Bool.not_eq_eq_eq_not,
+    Bool.not_true, Bool.and_eq_false_iff]
+  constructor
+  · intro h a hd hdef hc hp
+    rcases h a hd with h | (h | h) | h
+    · have : defs.all (·.sat a) = true := List.all_eq_true.2 hdef
+      simp_all
+    · simp_all
+    · have : prem.all (·.holds a) = true := List.all_eq_true.2 hp
+      simp_all
+    · cases concl <;> simp_all
+  · intro h a hd
+    by_cases hdef : defs.all (·.sat a) = true
+    · by_cases hc : c.sat a = true
+      · by_cases hp : prem.all (·.holds a) = true
+        · right; right
+          have := h a hd (List.all_eq_true.1 hdef) hc (List.all_eq_true.1 hp)
+          cases concl <;> simp_all
+        · right; left; right; simpa using hp
+      · right; left; left; simpa using hc
+    · left; simpa using hdef
+
+/-- shape of a definition: `[r ≥ 1] ↔ (± x ⋈ k)` for a 0-1 variable `r` and a single variable `x` -/
+def isDef (doms : List (List Int)) : Cons → Bool
+  | .reif (.ge r 1) (.linLe [v] _) | .reif (.ge r 1) (.linEq [v] _) | .reif (.ge r 1) (.linNe [v] _) =>
+    doms[r]? == some [0, 1] && v.var != r && (v.scale == 1 || v.scale == -1) && v.offset == 0
+  | _ => false
+
 end Pumpkin
